@@ -112,6 +112,39 @@ def boundary_distance(poly, pts):
     return best, which
 
 
+def inside1(poly, p):
+    """scalar crossing-number test (poly: list of complex)"""
+    x, y = p.real, p.imag
+    inside = False
+    n = len(poly)
+    for i in range(n):
+        a, b = poly[i], poly[(i + 1) % n]
+        if (a.imag > y) != (b.imag > y):
+            if a.real + (y - a.imag) * (b.real - a.real) / (b.imag - a.imag) > x:
+                inside = not inside
+    return inside
+
+
+def bdist1(poly, p):
+    """scalar distance to the nearest edge segment"""
+    best = math.inf
+    n = len(poly)
+    for i in range(n):
+        a, b = poly[i], poly[(i + 1) % n]
+        ab = b - a
+        L2 = ab.real * ab.real + ab.imag * ab.imag
+        if L2 == 0:
+            d = abs(p - a)
+        else:
+            ap = p - a
+            t = (ap.real * ab.real + ap.imag * ab.imag) / L2
+            t = 0.0 if t < 0 else (1.0 if t > 1 else t)
+            d = abs(ap - t * ab)
+        if d < best:
+            best = d
+    return best
+
+
 def polygon_area(poly):
     p = np.asarray(poly, dtype=complex)
     q = np.roll(p, -1)
@@ -434,38 +467,62 @@ RANDOM_KINDS = [("Cell", 0), ("CellSquare", 0), ("Cell3Sec", 0), ("Cell3Sec", 1)
 HORIZON = 2 * NDIR * 2 + 32
 
 
-def random_configs(tier):
-    pairs = [(POS[0], RADII[0]), (POS[1], RADII[1]), (POS[2], RADII[2])]
+E2_ROT_DEEP = [0, 45, 17, 123.4, -90, 720]
+
+
+def random_jobs(tier):
+    """(cfg, num_users, deviation bound) -- see main() for the stated bounds"""
+    diag = [(POS[0], RADII[0]), (POS[1], RADII[1]), (POS[2], RADII[2])]
+    full = [(p, r) for p in POS for r in RADII]
+    out = []
     if tier == "thorough":
-        pairs = [(p, r) for p in POS for r in RADII]
-    for kind, sector in RANDOM_KINDS:
-        for pos, r in pairs:
-            for rot in ROT:
-                for md in MIN_DIST:
-                    yield kind, sector, pos, r, rot, md
+        plan = [(full, ROT, MIN_DIST, 1, 4), (full, ROT, MIN_DIST, 2, 2),
+                (diag, E2_ROT_DEEP[:4], [0.0, 0.7], 1, 6)]
+    else:
+        plan = [(diag, E2_ROT_DEEP, MIN_DIST, 1, 4), (diag, ROT, MIN_DIST, 2, 2)]
+    for pairs, rots, mds, nusers, bound in plan:
+        for kind, sector in RANDOM_KINDS:
+            for pos, r in pairs:
+                for rot in rots:
+                    for md in mds:
+                        out.append(((kind, sector, pos, r, rot, md), nusers, bound))
+    return out
 
 
-def placement_region(kind, sector, pos, r, rot, obj):
-    """(polygon to be inside of [own vertices], extra polygon [model sector] or None, centre, radius for min_dist)"""
-    own = np.array(obj.vertices, dtype=complex)
+def placement_region(kind, sector, pos, r, rot):
+    """(own polygon of a freshly built cell, model sector hexagon or None, centre, radius for min_dist and box)"""
+    obj = build_shape(kind, pos, r, rot)
+    own = [complex(z) for z in np.array(obj.vertices, dtype=complex)]
     if sector:
         c, s, hexv = sector_hexagon(pos, r, rot, sector)
-        return own, hexv, c, s
-    return own, None, pos, float(r)
+        return own, [complex(z) for z in hexv], complex(c), float(s)
+    return own, None, complex(pos), float(r)
 
 
 def acceptable(pt, own, extra, centre, rad, md):
-    ok = bool(crossing_inside(own, pt)[0]) and float(boundary_distance(own, pt)[0][0]) > TOL * rad
+    ok = inside1(own, pt) and bdist1(own, pt) > TOL * rad
     if extra is not None:
-        ok = ok and bool(crossing_inside(extra, pt)[0])
+        ok = ok and inside1(extra, pt)
     return ok and abs(pt - centre) >= md * rad * (1 + 1e-9)
 
 
-def make_random_run(chk, cfg, nusers, record=None):
+def default_cycle(region, md):
+    """the NDIR default directions, those the ORACLE accepts for this cell first (index order otherwise)"""
+    own, extra, centre, rad = region
+    good, bad = [], []
+    for k in range(NDIR):
+        q = centre + complex(2 * (DEFAULTS[2 * k] - 0.5) * rad, 2 * (DEFAULTS[2 * k + 1] - 0.5) * rad)
+        (good if acceptable(q, own, extra, centre, rad, md) else bad).append(k)
+    return good + bad, len(good)
+
+
+def make_random_run(chk, cfg, nusers, region, record=None):
     kind, sector, pos, r, rot, md = cfg
     case0 = {"part": "random", "kind": kind, "sector": sector, "pos": pos, "radius": r, "rotation": rot,
              "min_dist_ratio": md, "num_users": nusers}
-    fam = family(kind)
+    own, extra, centre, rad = region
+    rc = rotcond(rot)
+    cycle, _ = default_cycle(region, md)
 
     def run(ctx):
         case = dict(case0)
@@ -473,9 +530,16 @@ def make_random_run(chk, cfg, nusers, record=None):
             obj = build_shape(kind, pos, r, rot)
             draws = []
 
+            st = [0, False]       # [index into `cycle` of the current default direction, x of this attempt deviated]
+
             def answer(k):
-                c = ctx.choose(len(ALPHA) + 1, "xy"[(k - 1) % 2])
-                val = DEFAULTS[(k - 1) % len(DEFAULTS)] if c == 0 else ALPHA[c - 1]
+                isx = (k % 2 == 1)
+                c = ctx.choose(len(ALPHA) + 1, "x" if isx else "y")
+                val = DEFAULTS[2 * cycle[st[0]] + (0 if isx else 1)] if c == 0 else ALPHA[c - 1]
+                if isx:
+                    st[1] = c != 0
+                elif c == 0 and not st[1]:
+                    st[0] = (st[0] + 1) % NDIR      # a fully default attempt was consumed: next direction
                 draws.append(val)
                 return val
 
@@ -496,7 +560,6 @@ def make_random_run(chk, cfg, nusers, record=None):
                          observed="more than %d draws" % HORIZON,
                          expected="an acceptable default draw is offered within %d attempts" % NDIR)
                 return
-            own, extra, centre, rad = placement_region(kind, sector, pos, r, rot, obj)
             users = list(obj.users)
             if len(users) != nusers:
                 chk.fail(("random_user", kind, "number_of_users"), case, observed=len(users), expected=nusers)
@@ -505,72 +568,65 @@ def make_random_run(chk, cfg, nusers, record=None):
             accepted = []
             for usr in users:
                 p = complex(usr.pos)
-                chk.count("eval_placed_users")
-                bd = float(boundary_distance(own, p)[0][0])
+                bd = bdist1(own, p)
                 if bd <= TOL * rad:
                     chk.count("excluded_tie_on_edge")
-                elif not bool(crossing_inside(own, p)[0]):
-                    chk.fail(("random_user", "outside_own_polygon", kind, rotcond(rot)), case, observed=p,
+                elif not inside1(own, p):
+                    chk.fail(("random_user", "outside_own_polygon", kind, rc), case, observed=p,
                              expected="inside the polygon of the cell's own vertices",
                              msg="distance to the cell boundary %.3g r" % (bd / rad))
-                if extra is not None:
-                    bd2 = float(boundary_distance(extra, p)[0][0])
-                    if bd2 > TOL * rad and not bool(crossing_inside(extra, p)[0]):
-                        chk.fail(("random_user", "outside_requested_sector", kind), case, observed=p,
-                                 expected="inside sector %d" % sector)
+                if extra is not None and bdist1(extra, p) > TOL * rad and not inside1(extra, p):
+                    chk.fail(("random_user", "outside_requested_sector", kind), case, observed=p,
+                             expected="inside sector %d" % sector)
                 if abs(p - centre) < md * rad * (1 - 1e-12):
                     chk.fail(("random_user", "closer_than_min_dist", kind), case, observed=abs(p - centre) / rad,
                              expected=">= %r" % md)
                 rp = usr.relative_pos
                 if not sector and (rp is None or abs(complex(rp) - (p - centre)) > TOL * rad):
                     chk.fail(("random_user", "relative_pos", kind), case, observed=rp, expected=p - centre)
-                # which draw pair produced it
-                box = float(obj.radius) if not sector else rad
+                # which pair of consecutive draws produced it
                 for j in range(nattempts):
-                    q = centre + complex(2 * (draws[2 * j] - 0.5) * box, 2 * (draws[2 * j + 1] - 0.5) * box)
+                    q = centre + complex(2 * (draws[2 * j] - 0.5) * rad, 2 * (draws[2 * j + 1] - 0.5) * rad)
                     if abs(q - p) <= TOL * rad:
                         accepted.append(j)
                         break
                 else:
                     chk.fail(("random_user", "position_not_from_draws", kind), case, observed=p,
                              expected="pos + 2(u-0.5) r for a pair of consecutive draws")
-            dev = ctx.deviations
-            if nattempts > nusers or dev:
+            chk.count("eval_placed_users", len(users))
+            if nattempts > nusers or ctx.deviations:
                 chk.count("eval_nontrivial_placements")
-                chk.nontriv(("random", kind, sector, rotcond(rot), md, nattempts, tuple(accepted),
-                             tuple(c for c in ctx.choices if c)))
+                chk.nontriv(("random", kind, sector, rc, md, nusers, nattempts, tuple(accepted),
+                             tuple(sorted(c for c in ctx.choices if c))))
             chk.outcome("placement_attempts", nattempts)
-            chk.outcome("placement_accepted_letters", (fam, tuple(sorted(set(c for c in ctx.choices if c)))[:3]))
             if record is not None:
                 record.append((nattempts, tuple(complex(u.pos) for u in users)))
     return run
 
 
-def run_random(chk, cfg, bound, nusers=2):
+def run_random(chk, cfg, bound, nusers):
     kind, sector, pos, r, rot, md = cfg
     case0 = {"part": "random", "kind": kind, "sector": sector, "pos": pos, "radius": r, "rotation": rot,
              "min_dist_ratio": md, "num_users": nusers}
     # non-vacuity of the default stream, by the oracle: one of the NDIR default points is acceptable
+    region = None
     with chk.guard(("random_user", kind), case0):
-        obj = build_shape(kind, pos, r, rot)
-        own, extra, centre, rad = placement_region(kind, sector, pos, r, rot, obj)
-        box = float(obj.radius) if not sector else rad
-        ok = 0
-        for k in range(NDIR):
-            q = centre + complex(2 * (DEFAULTS[2 * k] - 0.5) * box, 2 * (DEFAULTS[2 * k + 1] - 0.5) * box)
-            ok += acceptable(q, own, extra, centre, rad, md)
+        region = placement_region(kind, sector, pos, r, rot)
+        _, ok = default_cycle(region, md)
         if not ok:
             raise Broken("no acceptable default draw for %r" % (case0,))
         chk.outcome("acceptable_default_directions", ok)
+    if region is None:
+        return
     rec = []
-    run = make_random_run(chk, cfg, nusers, rec)
-    check_determinism(run, (), HORIZON)
+    check_determinism(make_random_run(chk, cfg, nusers, region, rec), (), HORIZON)
     if len(rec) == 2 and rec[0] != rec[1]:
         raise Broken("two executions of the default answer stream differ for %r" % (case0,))
-    ex = Explorer(make_random_run(chk, cfg, nusers), bound, horizon=HORIZON)
+    ex = Explorer(make_random_run(chk, cfg, nusers, region), bound, horizon=HORIZON)
     ex.explore()
     chk.count("eval_placement_configs")
     chk.outcome("e2_choice_points_per_execution", ex.max_points)
+    chk.outcome("e2_bounds_completed", (nusers, bound))
 
 
 # ----------------------------------------------------------------------
@@ -818,7 +874,7 @@ def jobs(tier):
         out.append(("cluster", cfg))
     for cfg in pp_configs(tier):
         out.append(("pp", cfg))
-    rnd = [("random", cfg) for cfg in random_configs(tier)]
+    rnd = [("random", cfg) for cfg in random_jobs(tier)]
     # interleave the heavy E2 jobs with the light ones so that round-robin shards are balanced
     res = []
     step = max(1, len(out) // max(1, len(rnd)))
@@ -833,11 +889,7 @@ def jobs(tier):
     return res
 
 
-def e2_bound(tier):
-    return 6 if tier == "thorough" else 4
-
-
-def run_job(chk, job, bound):
+def run_job(chk, job):
     part, cfg = job
     if part == "contains":
         run_contains(chk, *cfg)
@@ -850,12 +902,12 @@ def run_job(chk, job, bound):
     elif part == "pp":
         run_pp(chk, *cfg)
     elif part == "random":
-        run_random(chk, cfg, bound)
+        run_random(chk, cfg[0], cfg[2], cfg[1])
 
 
 def main(chk: Check):
     tier = chk.tier
-    bound = e2_bound(tier)
+    plan = sorted(set((n, b) for _, n, b in random_jobs(tier)))
     chk.assume("points within %g r of a polygon edge are ties (either answer allowed): excluded and counted" % TOL)
     chk.assume("numpy.random.random_sample is the only source of randomness of add_random_user(s) and of "
                "pointprocess; it is replaced by a scripted seam, every draw is an E2 choice point")
@@ -864,14 +916,14 @@ def main(chk: Check):
     chk.assume("Cell3Sec polygons are star-shaped w.r.t. the cell centre, so the border point per angle is unique")
     chk.extra["tolerance_relative_to_radius"] = TOL
     chk.extra["boundary_probe_offset_relative_to_radius"] = PROBE
-    chk.extra["e2_deviation_bound_completed"] = bound
+    chk.extra["e2_deviation_bounds_completed"] = ["num_users=%d: <=%d non-default draws" % nb for nb in plan]
     chk.extra["e2_alphabet"] = ALPHA
     chk.extra["e2_default_stream"] = "%d directions at %.4f r, cyclic" % (NDIR, DEFAULT_RATIO)
     all_jobs = jobs(tier)
 
     def worker(i, n, c):
         for job in shard(iter(all_jobs), i, n):
-            run_job(c, job, bound)
+            run_job(c, job)
 
     run_shards(chk, worker)
     chk.sample({"part": "contains", "kind": "Rectangle4x1", "pos": POS[1], "radius": 1.0, "rotation": 30})
@@ -907,7 +959,8 @@ def replay(case, chk: Check):
     elif part == "random":
         cfg = (case["kind"], case["sector"], complex(case["pos"]), case["radius"], case["rotation"],
                case["min_dist_ratio"])
-        run = make_random_run(chk, cfg, case.get("num_users", 2))
+        region = placement_region(cfg[0], cfg[1], cfg[2], cfg[3], cfg[4])
+        run = make_random_run(chk, cfg, case.get("num_users", 1), region)
         run(Ctx(list(case.get("choices", [])), None, HORIZON))
     else:
         raise Broken("unknown replay case %r" % (case,))
